@@ -15,6 +15,7 @@ import (
 	"encoding/binary"
 	"encoding/json"
 	"fmt"
+	"math/big"
 	"sort"
 	"strings"
 	"sync"
@@ -30,8 +31,13 @@ import (
 )
 
 const (
-	listKeys    = 10 // key ids that may appear in the key list
-	universe    = 12 // ids 10, 11 only ever sign ("keys not in the list")
+	listKeys = 10 // key ids that may appear in the key list
+	universe = 12 // ids 10, 11 only ever sign ("keys not in the list")
+	// an id is base + universe*form: form bit 0 = the mirrored key (private scalar N-d, the point with the same X and
+	// the other Y), form bit 1 = the key is given in its uncompressed encoding
+	formMirror  = 1
+	formUncompr = 2
+	allIDs      = 4 * universe
 	maxKeys     = 8
 	sigKinds    = 4
 	maxSchedCap = 4096
@@ -74,6 +80,17 @@ func (Engine) Draw(rt *rapid.T, prop, tier string) any {
 		if rapid.IntRange(0, 5).Draw(rt, "rep") == 5 {
 			id = rapid.IntRange(0, listKeys-1).Draw(rt, "keyid")
 		}
+		// one key in eight is the mirror image of a list key (often of one that is in the list as well), one in ten comes
+		// in the uncompressed encoding
+		if rapid.IntRange(0, 7).Draw(rt, "mirror") == 7 {
+			if i > 0 && rapid.Bool().Draw(rt, "mirror_of_earlier") {
+				id = p.Keys[rapid.IntRange(0, i-1).Draw(rt, "mirror_which")] % universe
+			}
+			id += universe * formMirror
+		}
+		if rapid.IntRange(0, 9).Draw(rt, "uncompressed") == 9 {
+			id += universe * formUncompr
+		}
 		p.Keys = append(p.Keys, id)
 	}
 	// m = 1 takes the sequential path of CheckMultisigPar (no workers): keep it rare
@@ -109,7 +126,7 @@ func (Engine) Draw(rt *rapid.T, prop, tier string) any {
 		case 3: // signer outside the list
 			p.Sigs[i].Key = rapid.IntRange(listKeys, universe-1).Draw(rt, "foreign")
 		case 4: // any signer
-			p.Sigs[i].Key = rapid.IntRange(0, universe-1).Draw(rt, "any")
+			p.Sigs[i].Key = rapid.IntRange(0, 2*universe-1).Draw(rt, "any")
 		}
 	}
 	switch e := rapid.IntRange(0, 7).Draw(rt, "enum"); {
@@ -148,11 +165,16 @@ func material(id int) *keyMat {
 	}
 	var seed [12]byte
 	copy(seed[:], "msigsim-")
-	binary.BigEndian.PutUint32(seed[8:], uint32(id))
+	binary.BigEndian.PutUint32(seed[8:], uint32(id%universe))
 	d := sha256.Sum256(seed[:])
 	d[0] &= 0x7f // keep the scalar below the group order
 	if d[31] == 0 {
 		d[31] = 1
+	}
+	form := id / universe
+	if form&formMirror != 0 {
+		x := new(big.Int).Sub(elliptic.P256().Params().N, new(big.Int).SetBytes(d[:]))
+		x.FillBytes(d[:])
 	}
 	priv, err := keys.NewPrivateKeyFromBytes(d[:])
 	if err != nil {
@@ -160,6 +182,9 @@ func material(id int) *keyMat {
 	}
 	pub := priv.PublicKey()
 	m := &keyMat{priv: priv, pub: pub, pubB: pub.Bytes(), sig: priv.SignHash(util.Uint256(msgHash))}
+	if form&formUncompr != 0 {
+		m.pubB = pub.UncompressedBytes()
+	}
 	mats[id] = m
 	return m
 }
@@ -220,7 +245,8 @@ func sanitize(p *Plan) *Plan {
 	q := &Plan{Enum: p.Enum, Tape: p.Tape}
 	for _, k := range p.Keys {
 		if len(q.Keys) < maxKeys {
-			q.Keys = append(q.Keys, ((k%listKeys)+listKeys)%listKeys)
+			k = ((k % allIDs) + allIDs) % allIDs
+			q.Keys = append(q.Keys, (k%universe)%listKeys+k/universe*universe)
 		}
 	}
 	if len(q.Keys) == 0 {
@@ -229,7 +255,7 @@ func sanitize(p *Plan) *Plan {
 	for _, s := range p.Sigs {
 		// preconditions the interop guarantees: 1 <= len(sigs) <= len(pkeys)
 		if len(q.Sigs) < len(q.Keys) {
-			q.Sigs = append(q.Sigs, SigSpec{Key: ((s.Key % universe) + universe) % universe, Kind: ((s.Kind % sigKinds) + sigKinds) % sigKinds})
+			q.Sigs = append(q.Sigs, SigSpec{Key: ((s.Key % allIDs) + allIDs) % allIDs, Kind: ((s.Kind % sigKinds) + sigKinds) % sigKinds})
 		}
 	}
 	if len(q.Sigs) == 0 {
@@ -351,9 +377,28 @@ func (Engine) Run(t *testing.T, prop string, planAny any) *sim.Outcome {
 	}
 	want := reference(p)
 	log.Addf("keys=%v sigs=%v want=%v", p.Keys, p.Sigs, want)
+	// the decoder's process-wide key cache starts every run empty: what it holds is part of the run's history
+	keys.VerifPurgeKeyCache()
+	bases := map[int]int{}
+	for _, id := range p.Keys {
+		bases[id%universe] |= 1 << uint(id/universe&formMirror)
+		if id/universe&formUncompr != 0 {
+			out.Probes["uncompressed_key_in_list"]++
+		}
+	}
+	for _, b := range bases {
+		if b == 3 {
+			out.Probes["key_and_its_mirror_image_in_list"]++
+			break
+		}
+	}
 
 	// input probes
 	seenK := map[int]bool{}
+	seenSigner := map[int]bool{} // (the encoding of the key does not matter to the signer)
+	for _, id := range p.Keys {
+		seenSigner[id%(2*universe)] = true
+	}
 	for _, id := range p.Keys {
 		if seenK[id] {
 			out.Probes["repeated_keys"]++
@@ -367,7 +412,7 @@ func (Engine) Run(t *testing.T, prop string, planAny any) *sim.Outcome {
 		if s.Kind != 0 {
 			inv = true
 		}
-		if !seenK[s.Key] {
+		if !seenSigner[s.Key%(2*universe)] {
 			foreign = true
 		}
 		if seenS[s] {
